@@ -2,13 +2,13 @@ use crate::{
     Error, ErrorKind, FormatOptions, Result, Trivia,
     trivia::{TriviaItem, TriviaIterator, TriviaToken},
 };
-use koto_lexer::Position;
+use koto_lexer::{Lexer, Position};
 use koto_parser::{
     Ast, AstCatch, AstFor, AstIf, AstIndex, AstNode, AstString, AstTry, AstUnaryOp, ChainNode,
     ConstantIndex, ConstantPool, Function, ImportItem, KString, Node, ParserOptions, Span,
     StringAlignment, StringContents, StringFormatOptions, StringNode,
 };
-use std::{cell::OnceCell, iter};
+use std::{cell::OnceCell, collections::BTreeMap, iter};
 use unicode_width::{UnicodeWidthChar, UnicodeWidthStr};
 
 /// Returns the input source formatted according to the provided options
@@ -913,6 +913,11 @@ struct FormatContext<'source> {
     options: &'source FormatOptions,
     // The byte offset of each line's start
     line_offsets: Vec<u32>,
+    // The byte offset of each token boundary
+    //
+    // Span columns aren't byte offsets when a line contains non-ASCII characters, so the byte
+    // positions reported by the lexer are used when slicing the source.
+    token_offsets: BTreeMap<Position, usize>,
 }
 
 impl<'source> FormatContext<'source> {
@@ -925,11 +930,18 @@ impl<'source> FormatContext<'source> {
             )
             .collect();
 
+        let mut token_offsets = BTreeMap::new();
+        for token in Lexer::new(source) {
+            token_offsets.insert(token.span.start, token.source_bytes.start);
+            token_offsets.insert(token.span.end, token.source_bytes.end);
+        }
+
         Self {
             source,
             ast,
             options,
             line_offsets,
+            token_offsets,
         }
     }
 
@@ -946,9 +958,12 @@ impl<'source> FormatContext<'source> {
     }
 
     fn source_slice(&self, span: &Span) -> &'source str {
-        let start = self.line_offsets[span.start.line as usize] + span.start.column;
-        let end = self.line_offsets[span.end.line as usize] + span.end.column;
-        &self.source[start as usize..end as usize]
+        let byte_offset = |position: &Position| {
+            self.token_offsets.get(position).copied().unwrap_or_else(|| {
+                (self.line_offsets[position.line as usize] + position.column) as usize
+            })
+        };
+        &self.source[byte_offset(&span.start)..byte_offset(&span.end)]
     }
 }
 
